@@ -57,10 +57,7 @@ R.contract(
     note="ghost: the individual is appended to self.hist on entry (history of post-processed individuals)",
 )
 
-DISTINCT_L = {
-    "distinct_stores": "forall(0, len(individuals), lambda a: forall(0, len(individuals), lambda b: "
-    "implies(not same(individuals[a], individuals[b]), not same(individuals[a].fitness_store, individuals[b].fitness_store))))",
-}
+DISTINCT_L = {}
 R.contract(
     "SingleObjectiveProgressTracker.evaluate",
     file=TRK,
